@@ -17,16 +17,20 @@ impl PathS {
 pub fn vx_rebase(origin: &PathS, based: Based) -> (r: PathS) ensures r == rebased_of(*origin, based.of) { unimplemented!() }
 // ignore::gitignore::Gitignore compiled from the --filter / --ignore patterns: glob semantics NOT decided (uninterpreted)
 pub struct Gitignore { pub id: int }
-pub struct MatchR { pub ign: bool }
+pub struct MatchR { pub ign: bool, pub wl: bool }   // Match::{Ignore, Whitelist, None}: at most one of the two
 pub uninterp spec fn g_ign(g: Gitignore, p: PathS, is_dir: bool) -> bool;     // matched(p, is_dir).is_ignore()
 pub uninterp spec fn g_count(g: Gitignore) -> nat;                            // num_ignores(): number of non-negated patterns
 impl Gitignore {
     #[verifier::external_body]
-    pub fn matched(&self, p: PathS, is_dir: bool) -> (r: MatchR) ensures r.ign == g_ign(*self, p, is_dir) { unimplemented!() }
+    pub fn matched(&self, p: PathS, is_dir: bool) -> (r: MatchR) ensures r.ign == g_ign(*self, p, is_dir), !(r.ign && r.wl) { unimplemented!() }
     #[verifier::external_body]
     pub fn num_ignores(&self) -> (r: u64) ensures r as nat == g_count(*self) { unimplemented!() }
 }
-impl MatchR { pub fn is_ignore(&self) -> (r: bool) ensures r == self.ign { self.ign } }
+impl MatchR {
+    pub fn is_ignore(&self) -> (r: bool) ensures r == self.ign { self.ign }
+    pub fn is_whitelist(&self) -> (r: bool) ensures r == self.wl { self.wl }
+    pub fn is_none(&self) -> (r: bool) ensures r == (!self.ign && !self.wl) { !self.ign && !self.wl }
+}
 // the event as seen by the filterer: its (path, file type) pairs, by value (both are Copy stand-ins)
 pub struct Event { pub path_tags: Vec<(PathS, Option<FileType>)> }
 pub struct Priority;
